@@ -41,3 +41,9 @@ pub(crate) fn transpose_bitmatrix(input: &[u8], output: &mut [u8], rows: usize) 
     #[cfg(not(any(target_arch = "x86", target_arch = "x86_64")))]
     portable::transpose_bitmatrix(input, output, rows);
 }
+
+/// Verification hook: the portable implementation, whatever the CPU supports.
+#[cfg(polytune_verif)]
+pub(crate) fn verif_portable(input: &[u8], output: &mut [u8], rows: usize) {
+    portable::transpose_bitmatrix(input, output, rows);
+}
